@@ -105,6 +105,22 @@ SPECS = {
             "element type i64; a panic is observed with catch_unwind",
         ],
     },
+    "rand": {
+        "module": "RandTrace",
+        "release": True,
+        "rule": ("I->S through the public trait method gen_from_u64 with ADVERSARIAL raw outputs (0, 1, 2^64-1, 2^53 and 2^63 neighbourhoods, "
+                 "multiples of the range length +-1, the largest multiple below 2^64): every (start, end) pair of i8 and u8 (quick: every "
+                 "third start) in all five range forms, boundary ranges (length 1, 2^k, MAX, full width, MIN+1..=MAX) of the 16/32/64-bit and "
+                 "pointer-sized types; reachability of every value of small ranges; twelve half-open float ranges (incl. denormal, huge, "
+                 "one-ulp-wide) x 118 raws compared in IEEE order on bit patterns; equal-seed / copied generators; shuffles as permutations; "
+                 "arrangement histograms of 1..k (k <= 5, thorough 6) over 1e5 (5e5) random seeds: all k! reached, each within 30% of the "
+                 "mean (> 7 sigma); 4096-draw sequences from ranges of length 2,3,4,8,16,256 must have no period <= 64. Non-trivial = every "
+                 "draw."),
+        "assumptions": [
+            "statistical clauses use fixed thresholds whose false-alarm probability on a correct implementation is < 1e-9 per run",
+            "seeds for the histograms are random 64-bit values from the harness's own generator (seeded by VERIF_SEED)",
+        ],
+    },
 }
 
 
